@@ -75,6 +75,13 @@ def cfg_valid(rc, conf):
                 opt(rc.max_file_segment_len, lambda m: m >= 1, True))
 
 
+def ts_fresh(h):
+    """a transaction that is about to start (step TRANSACTION_START) still has fresh file parameters"""
+    fp = h._params.fp
+    return Implies_(step_is(h, STEP.TRANSACTION_START), And_(
+        Not_(B(fp.metadata_only)), Not_(B(fp.empty_file)), opt(fp.file_size, lambda fs: fs == 0, False)))
+
+
 def src_inv(h):
     st, p = h.states, h._params
     fp, pa, ap = p.fp, p.positive_ack_params, p.ack_params
@@ -118,8 +125,10 @@ def src_inv(h):
                 isnone(pa.ack_timer), pa.ack_counter == 0)),
             Implies_(eq(st.step, STEP.IDLE), And_(
                 Not_(B(fp.metadata_only)), Not_(B(fp.empty_file)), opt(fp.file_size, lambda fs: fs == 0, False))))),
+        ("S9.fresh_file_params_at_start", ts_fresh(h)),
         ("S9.idle_has_no_cfg", Implies_(eq(st.state, IDLE), And_(isnone(p.remote_cfg), Not_(B(p.closure_requested))))),
-        ("S8.check_timer_only_unacked_closure", opt(p.check_timer, lambda t: And_(eq(m, UNACK), B(p.closure_requested)), True)),
+        ("S8.check_timer_only_unacked_closure", opt(p.check_timer, lambda t: And_(
+            eq(m, UNACK), B(p.closure_requested), step_is(h, STEP.WAITING_FOR_FINISHED, STEP.NOTICE_OF_COMPLETION)), True)),
     ]
     return L
 
@@ -149,15 +158,13 @@ def inv_clauses(props=()):
     return out
 
 
-def ts_fresh(h):
-    """a transaction that is about to start (step TRANSACTION_START) still has fresh file parameters"""
-    fp = h._params.fp
-    return Implies_(step_is(h, STEP.TRANSACTION_START), And_(
-        Not_(B(fp.metadata_only)), Not_(B(fp.empty_file)), opt(fp.file_size, lambda fs: fs == 0, False)))
-
-
 REQ_INV = [("SrcInv", lambda o: inv_formula(o.self))]
-REQ_TS_FRESH = [("env", lambda o: ts_fresh(o.self))]
+QMOD = ["self._pdus_to_be_sent", "self.states._num_packets_ready"]
+REQ_TS_FRESH = []
+LIGHT = ("S0.state_dom", "S2.busy_has_request", "S2.request_wf", "cfg.table", "cfg.local_id", "cfg.remote")
+# the helpers called in the middle of _transaction_start see file parameters that are already set while the step is
+# still TRANSACTION_START: they rely on the configuration part of the invariant only
+REQ_INV_LIGHT = [("SrcInvCfg", lambda o: And_(*[f for l, f in src_inv(o.self) if l in LIGHT]))]
 DEFAULT = [("default_fault_table", default_table)]
 CONTRACTS = []
 
@@ -560,6 +567,14 @@ C("_handle_wait_for_finish", arg_types={**SELF, **HOLDER}, props=("C13", "C01", 
   requires=REQ_INV + DEFAULT + [("waiting_for_finished", _waiting_for_finished),
                                 ("nak_only_in_acked_mode", lambda o: Implies_(_is(o, NakPdu), eq(mode(o.self), ACK)) if _is(o, NakPdu) else True)],
   modifies=NOC_MOD + ["self._params.ack_params.step_before_retransmission"],
+  cond_frames=[
+      ("C13.src.nothing_happens_while_timer_runs", lambda o: (Not_(_check_timer_expired(o))
+                                                              if not (_is(o, FinishedPdu) or _is(o, NakPdu)) else False), [], {"silent": True}),
+      ("C08.nak_only_queues_and_switches_step", lambda o: True if _is(o, NakPdu) else False,
+       QMOD + ["self.states.step", "self._params.ack_params.step_before_retransmission"]),
+      ("C01.src.finished_only_recorded_and_acked", lambda o: True if _is(o, FinishedPdu) else False,
+       QMOD + ["self.states.step", "self._params.finished_params"]),
+  ],
   ensures=[
       Clause("C01.src.relays_finished_params", lambda o, n, r: (
           And_(opt(n.self._params.finished_params, lambda fp: fp.oid == _holder_pdu(o).finished_params.oid, False),
@@ -586,7 +601,8 @@ C("_handle_wait_for_finish", arg_types={**SELF, **HOLDER}, props=("C13", "C01", 
           if not (_is(o, FinishedPdu) or _is(o, NakPdu)) else True), ("C13", "C04")),
   ] + inv_clauses(("C13",)),
   raises=[RaiseClause("C08.invalid_nak", X.InvalidNakPdu, when=lambda o: _is(o, NakPdu), props=("C08", "C10"),
-                      modifies=["self._pdus_to_be_sent", "self.states._num_packets_ready"])],
+                      modifies=["self._pdus_to_be_sent", "self.states._num_packets_ready"],
+                      post=lambda o, n: inv_formula(n.self))],
   effects={"vfs", "user", "timer", "fault_cb"}, modular=False)
 
 
@@ -616,8 +632,6 @@ def sending_file(o):
     return And_(ne(h.states.state, IDLE), Not_(step_is(h, STEP.IDLE, STEP.TRANSACTION_START)),
                 Not_(B(h._params.fp.metadata_only)))
 
-
-QMOD = ["self._pdus_to_be_sent", "self.states._num_packets_ready"]
 
 C("_prepare_file_data_pdu", arg_types={**SELF, "offset": T.Int, "read_len": T.Int}, props=("C07", "C08"), result=None,
   requires=REQ_INV + [("sending_file", sending_file),
@@ -838,7 +852,7 @@ def _derived_seg_len(h):
 
 
 C("_calculate_max_file_seg_len", arg_types=SELF, props=("C07", "C19"), result=None,
-  requires=REQ_INV + [("has_cfg", lambda o: And_(present(o.self._params.remote_cfg), conf_wf(o.self._params.pdu_conf))),
+  requires=REQ_INV_LIGHT + [("has_cfg", lambda o: And_(present(o.self._params.remote_cfg), conf_wf(o.self._params.pdu_conf))),
                       ("cfg_valid", lambda o: cfg_valid(rcfg(o.self), o.self._params.pdu_conf)),
                       ("max_packet_len_fits_pdu_length_field", lambda o: rcfg(o.self).max_packet_len <= 65535)],
   modifies=["self._params.fp.segment_len"],
@@ -862,7 +876,7 @@ def _seq_events(n):
 
 
 C("_get_next_transfer_seq_num", arg_types=SELF, props=("C19", "C07"), result=None,
-  requires=REQ_INV,
+  requires=REQ_INV_LIGHT,
   modifies=["self._params.pdu_conf.transaction_seq_num"],
   ensures=[
       Clause("C19.next_provider_value_once", lambda o, n, r: len(_seq_events(n)) == 1 and
@@ -878,7 +892,7 @@ _GET_SEQ = CONTRACTS[-1]
 
 
 C("_prepare_pdu_conf", arg_types={**SELF, "file_size": T.Opt(T.Int)}, props=("C07",), result=None,
-  requires=REQ_INV + [("busy", lambda o: And_(ne(o.self.states.state, IDLE), present(o.file_size))),
+  requires=REQ_INV_LIGHT + [("busy", lambda o: And_(ne(o.self.states.state, IDLE), present(o.file_size))),
                       ("size_is_fp_size", lambda o: Eq_(o.file_size, o.self._params.fp.file_size))],
   modifies=["self._params.pdu_conf.file_flag", "self._params.pdu_conf.seg_ctrl", "self._params.pdu_conf.source_entity_id",
             "self._params.pdu_conf.dest_entity_id", "self._params.pdu_conf.crc_flag", "self._params.pdu_conf.direction"],
@@ -961,7 +975,8 @@ C("_sending_file_data_fsm", arg_types={**SELF, **HOLDER}, props=("C07", "C08"), 
           step_is(n.self, STEP.RETRANSMITTING), Eq_(n.self._params.fp.progress, o.self._params.fp.progress))
           if _is(o, NakPdu) else True), ("C08",)),
   ] + inv_clauses(("C07",)),
-  raises=[RaiseClause("C08.invalid_nak", X.InvalidNakPdu, when=lambda o: _is(o, NakPdu), props=("C08", "C10"), modifies=QMOD)],
+  raises=[RaiseClause("C08.invalid_nak", X.InvalidNakPdu, when=lambda o: _is(o, NakPdu), props=("C08", "C10"), modifies=QMOD,
+                      post=lambda o, n: inv_formula(n.self))],
   effects={"vfs"}, modular=False)
 for _c in CONTRACTS:
     if _c.fq.endswith("._sending_file_data_fsm") or _c.fq.endswith("._handle_wait_for_finish"):
@@ -974,6 +989,13 @@ for _c in CONTRACTS:
 C("_handle_waiting_for_ack", arg_types={**SELF, **HOLDER}, props=("C04", "C08"), result=None, setup=_holder_setup,
   requires=REQ_INV + DEFAULT + [("in_eof_ack_wait", _in_eof_ack_wait), ("pdu_wf", lambda o: pdu_wf(_holder_pdu(o)))],
   modifies=NOC_MOD + ["self._params.positive_ack_params.ack_timer.expired", "self._params.ack_params.step_before_retransmission"],
+  cond_frames=[
+      ("C04.src.ack_only_changes_step", lambda o: True if _is(o, AckPdu) else False, ["self.states.step"], {"silent": True}),
+      ("C04.src.nothing_happens_before_expiry", lambda o: (Not_(_pa_expired(o)) if not (_is(o, AckPdu) or _is(o, NakPdu)) else False),
+       [], {"silent": True}),
+      ("C08.nak_only_queues_and_switches_step", lambda o: True if _is(o, NakPdu) else False,
+       QMOD + ["self.states.step", "self._params.ack_params.step_before_retransmission"]),
+  ],
   ensures=[
       Clause("C04.src.ack_of_eof_ends_the_wait", lambda o, n, r: (
           Implies_(eq(_holder_pdu(o).directive_code_of_acked_pdu, DirectiveType.EOF_PDU), And_(
@@ -987,12 +1009,16 @@ C("_handle_waiting_for_ack", arg_types={**SELF, **HOLDER}, props=("C04", "C08"),
           Implies_(And_(_pa_expired(o), Not_(_pa_limit_hit(o))), And_(
               _pa(n.self).ack_counter == _pa(o.self).ack_counter + 1, _eof_as_before(o, n)))
           if not (_is(o, AckPdu) or _is(o, NakPdu)) else True), ("C04",)),
+      Clause("state.transaction_config_kept_unless_reset", lambda o, n, r: Implies_(ne(n.self.states.state, IDLE), And_(
+          Eq_(mode(n.self), mode(o.self)), same_obj(n.self._params.check_timer, o.self._params.check_timer),
+          same_obj(n.self._params.remote_cfg, o.self._params.remote_cfg))), ("C04",)),
       Clause("C08.nak_serviced_while_waiting_for_ack", lambda o, n, r: (And_(
           step_is(n.self, STEP.RETRANSMITTING), unchanged(o, n, "_params.positive_ack_params.ack_counter", "_params.fp.progress",
                                                           "_params.cond_code_eof"))
           if _is(o, NakPdu) else True), ("C08",)),
   ] + inv_clauses(("C04",)),
-  raises=[RaiseClause("C08.invalid_nak", X.InvalidNakPdu, when=lambda o: _is(o, NakPdu), props=("C08", "C10"), modifies=QMOD)],
+  raises=[RaiseClause("C08.invalid_nak", X.InvalidNakPdu, when=lambda o: _is(o, NakPdu), props=("C08", "C10"), modifies=QMOD,
+                      post=lambda o, n: inv_formula(n.self))],
   effects={"vfs", "user", "timer", "fault_cb"}, modular=False)
 CONTRACTS[-1].cost_hint = 4
 
@@ -1181,7 +1207,7 @@ def _started_conjuncts(h):
 
 C("_transaction_start", arg_types=SELF, props=("C07", "C15", "C16", "C19"), result=None,
   requires=REQ_INV + [("at_start", lambda o: And_(ne(o.self.states.state, IDLE), step_is(o.self, STEP.TRANSACTION_START))),
-                      ("env", _env_valid), ("fresh_file_params", lambda o: ts_fresh(o.self))],
+                      ("env", _env_valid)],
   modifies=TS_MOD,
   ensures=[
       Clause("C07.transaction_id_is_local_id_and_seq_num", lambda o, n, r: opt(n.self._params.transaction_id, lambda t: And_(
@@ -1211,7 +1237,7 @@ C("_transaction_start", arg_types=SELF, props=("C07", "C15", "C16", "C19"), resu
 # ---------------------------------------------------------------------------------------------- file parameters
 C("_prepare_file_params", arg_types=SELF, props=("C07", "C16", "C19"), result=None,
   requires=REQ_INV + [("at_start", lambda o: And_(ne(o.self.states.state, IDLE), step_is(o.self, STEP.TRANSACTION_START))),
-                      ("fresh_file_params", lambda o: ts_fresh(o.self))],
+                      ],
   modifies=["self._params.fp.metadata_only", "self._params.fp.empty_file", "self._params.fp.file_size"],
   ensures=[
       Clause("C07.file_kind_and_size", lambda o, n, r: (lambda fp, req: And_(
@@ -1222,7 +1248,8 @@ C("_prepare_file_params", arg_types=SELF, props=("C07", "C16", "C19"), result=No
           n.self._params.fp, val(o.self._put_req)), ("C07", "C16")),
       Clause("C16.only_filestore_queries", lambda o, n, r: all(e["op"] in ("file_exists", "file_size") for e in vfs_ops(n)) and And_(
           *[Eq_(e["path"], src_file(o.self)) for e in vfs_ops(n)]), ("C16",)),
-  ] + inv_clauses(("C07",)),
+      Clause("C07.size_non_negative", lambda o, n, r: opt(n.self._params.fp.file_size, lambda fs: fs >= 0, False), ("C07",)),
+  ],
   raises=[RaiseClause("C19.source_file_vanished", X.SourceFileDoesNotExist, props=("C10", "C19"),
                       when=lambda o: opt(val(o.self._put_req).source_file, lambda f: Not_(fs_exists(FS0, f.p)), False),
                       iff=True, modifies=[])],
@@ -1273,23 +1300,117 @@ def _fsm_contract(step):
               ("step", lambda o, step=step: step_is(o.self, step)),
               ("env_valid", lambda o: Implies_(present(o.self._params.remote_cfg), _env_valid(o)))],
           modifies=FSM_MOD,
-          ensures=inv_clauses(("C10",)) + [Clause("inv.ts_fresh", lambda o, n, r: ts_fresh(n.self), ("C10",))],
+          ensures=inv_clauses(("C10",)),
           raises=[
               RaiseClause("C10.unretrieved_truthful", X.UnretrievedPdusToBeSent, iff=True, when=lambda o: qlen(o.self) > 0,
                           props=("C10",), modifies=[]),
               RaiseClause("C10.source_file_vanished", X.SourceFileDoesNotExist, props=("C10",), modifies=["self.states.step"],
                           when=lambda o: step_is(o.self, STEP.IDLE, STEP.TRANSACTION_START),
-                          post=lambda o, n: And_(inv_formula(n.self), ts_fresh(n.self))),
+                          post=lambda o, n: inv_formula(n.self)),
               RaiseClause("C10.invalid_nak", X.InvalidNakPdu, props=("C10", "C08"),
                           when=lambda o: o.packet is not None and o.packet.cls is NakPdu,
-                          modifies=QMOD + ["self.states.step", "self._params.cond_code_eof"],
-                          post=lambda o, n: And_(inv_formula(n.self), ts_fresh(n.self))),
+                          modifies=FSM_MOD,
+                          post=lambda o, n: inv_formula(n.self)),
           ],
           effects={"vfs", "user", "timer", "fault_cb", "seqnum"}, modular=True)
     c.contract_callees = set(FSM_CALLEES)
+    c.cost_hint = 4
     c.call_default = (step is STEP.IDLE)
     return c
 
 
 for _st in STEP:
     _fsm_contract(_st)
+
+
+# ---------------------------------------------------------------------------------------------- union summary
+def _fsm_any():
+    """summary of _fsm_non_idle for callers: the union of the per-step instances above (TransactionStep is finite and
+    every member has an instance, so the union needs no separate proof)"""
+    c = C("_fsm_non_idle", instance="ANY_STEP", arg_types={**SELF, "packet": T.Opaque}, props=(), result=None,
+          requires=REQ_INV + DEFAULT + [
+              ("busy", lambda o: ne(o.self.states.state, IDLE)), ("admitted", _admitted),
+              ("env_valid", lambda o: Implies_(present(o.self._params.remote_cfg), _env_valid(o)))],
+          modifies=FSM_MOD, ensures=inv_clauses(()),
+          raises=[
+              RaiseClause("C10.unretrieved_truthful", X.UnretrievedPdusToBeSent, iff=True, when=lambda o: qlen(o.self) > 0, modifies=[]),
+              RaiseClause("C10.source_file_vanished", X.SourceFileDoesNotExist, modifies=["self.states.step"],
+                          when=lambda o: step_is(o.self, STEP.IDLE, STEP.TRANSACTION_START), post=lambda o, n: inv_formula(n.self)),
+              RaiseClause("C10.invalid_nak", X.InvalidNakPdu, when=lambda o: o.packet is not None and o.packet.cls is NakPdu,
+                          modifies=FSM_MOD, post=lambda o, n: inv_formula(n.self)),
+          ],
+          effects={"vfs", "user", "timer", "fault_cb", "seqnum"}, modular=True, trusted=True,
+          notes="union of the per-step instances of _fsm_non_idle")
+    c.call_default = True
+    return c
+
+
+for _c in CONTRACTS:
+    if _c.fq.endswith("._fsm_non_idle"):
+        _c.call_default = False
+_fsm_any()
+
+
+def _sm_setup(interp, roots):
+    roots["packet"] = interp.fresh_value(ANY_PDU, "packet")
+
+
+def _sm_rejected(o):
+    return o.packet is not None
+
+
+ADMISSION_EXC = [X.InvalidPduDirection, X.InvalidSourceId, X.InvalidDestinationId, X.InvalidTransactionSeqNum,
+                 X.InvalidPduForSourceHandler, X.PduIgnoredForSource, X.NoRemoteEntityCfgFound]
+
+C("state_machine", arg_types={**SELF, "packet": T.Opaque}, setup=_sm_setup, props=("C10", "C16", "C11"), result=T.Opaque,
+  requires=REQ_INV + DEFAULT + [("pdu_wf", lambda o: pdu_wf(o.packet)),
+                                ("env_valid", lambda o: Implies_(present(o.self._params.remote_cfg), _env_valid(o)))],
+  modifies=FSM_MOD,
+  cond_frames=[("C10.idle_handler_does_nothing", lambda o: eq(o.self.states.state, IDLE), [], {"silent": True})],
+  ensures=inv_clauses(("C10", "C11")) + [
+      Clause("C10.returns_states", lambda o, n, r: r.cls is S.FsmResult and r.states.oid == o.self.states.oid, ("C10",)),
+  ],
+  raises=[RaiseClause(f"C10.rejected_pdu_changes_nothing.{e.__name__}", e, when=_sm_rejected, props=("C10", "C20"), modifies=[],
+                      post=lambda o, n: len([e for e in n.trace if e["kind"] != "opaque_call"]) == 0) for e in ADMISSION_EXC] + [
+      RaiseClause("C10.unretrieved_truthful", X.UnretrievedPdusToBeSent, iff=True,
+                  when=lambda o: And_(ne(o.self.states.state, IDLE), qlen(o.self) > 0), props=("C10",), modifies=[]),
+      RaiseClause("C10.source_file_vanished", X.SourceFileDoesNotExist, props=("C10",), modifies=["self.states.step"],
+                  when=lambda o: step_is(o.self, STEP.IDLE, STEP.TRANSACTION_START), post=lambda o, n: inv_formula(n.self)),
+      RaiseClause("C10.invalid_nak", X.InvalidNakPdu, props=("C10", "C08"),
+                  when=lambda o: o.packet is not None and o.packet.cls is NakPdu,
+                  modifies=FSM_MOD, post=lambda o, n: inv_formula(n.self)),
+  ],
+  effects={"vfs", "user", "timer", "fault_cb", "seqnum"}, modular=False)
+CONTRACTS[-1].contract_callees = {"SourceHandler._check_inserted_packet", "SourceHandler._fsm_non_idle"}
+CONTRACTS[-1].cost_hint = 6
+
+
+C("get_next_packet", arg_types=SELF, props=("C10",), result=T.Opaque,
+  requires=REQ_INV,
+  modifies=QMOD,
+  ensures=[
+      Clause("C10.pops_one_or_none", lambda o, n, r: And_(
+          Implies_(qlen(o.self) == 0, And_(r is None, qlen(n.self) == 0)) if True else True,
+          Implies_(qlen(o.self) > 0, And_(r is not None, qlen(n.self) == qlen(o.self) - 1))), ("C10",)),
+  ] + inv_clauses(("C10",)),
+  effects=set(), modular=False)
+
+
+def _fresh_params(n):
+    p = n.self._params
+    return And_(isnone(p.transaction_id), isnone(p.remote_cfg), isnone(p.check_timer), isnone(p.cond_code_eof),
+                isnone(p.finished_params), p.fp.progress == 0, Not_(B(p.fp.metadata_only)), Not_(B(p.fp.empty_file)),
+                opt(p.fp.file_size, lambda s: s == 0, False), isnone(p.positive_ack_params.ack_timer),
+                p.positive_ack_params.ack_counter == 0, Not_(B(p.closure_requested)))
+
+
+C("_reset_internal", arg_types={**SELF, "clear_packet_queue": T.Bool}, props=("C11",), result=None,
+  requires=[], modifies=NOC_MOD,
+  ensures=[
+      Clause("C11.src.reset_restores_constructor_values", lambda o, n, r: And_(
+          eq(n.self.states.state, IDLE), eq(n.self.states.step, STEP.IDLE), _fresh_params(n)), ("C11",)),
+      Clause("C11.src.queue_cleared_iff_asked", lambda o, n, r: And_(
+          Implies_(B(o.clear_packet_queue), qlen(n.self) == 0),
+          Implies_(Not_(B(o.clear_packet_queue)), qlen(n.self) == qlen(o.self))), ("C11",)),
+  ],
+  effects=set(), modular=False)
